@@ -9,7 +9,7 @@ modelled natives (Model/Ledger/NativeSys.lean).
   genesis | endblock | final                 -> <obs A> | <obs B>
       mgmt=<tok>=<id>:<upd>:<cached manifest object>/<id>:<upd>:<stored manifest item> …: the restarted replica's cache
       is Manifest.FromStackItem of the stored item (Model/Ledger/Mgmt.lean `init`)
-  block <h> <primary>                        -> ok
+  block <h> <primary> <timestamp ms>         -> ok
   tx s=<tok,…> c=<m:i.j.k|-> <kind> <args…> [oog]  -> halt true | halt false | halt | fault | skip  (replica A)
       the committee setters (policy.setAttributeFee … neo.setGasPerBlock, role.designate) are PREDICTED by the guarded
       components (Model/Ledger/Guarded.lean) run against the committee replica A's NEO cache holds at this block
@@ -24,6 +24,7 @@ import NeoModel.Model.Ledger.Components
 import NeoModel.Model.Ledger.Guarded
 import NeoModel.Model.Ledger.Mgmt
 import NeoModel.Model.Ledger.Reward
+import NeoModel.Model.Ledger.Recover
 open NeoModel NeoModel.Ledger NeoModel.Ledger.Natives NeoModel.Ledger.Components NeoModel.Ledger.Guarded
 
 structure DState where
@@ -59,6 +60,8 @@ structure DState where
   mgToks : List String := []      -- tokens of contracts whose deployment was part of a block
   gpbA : Comp.CNode (List (Nat × Int)) (List (Nat × Int)) := { store := [(0, 500000000)], cache := [(0, 500000000)], height := 0 }   -- genesis record (native_neo.go:345-349)
   gpbB : Comp.CNode (List (Nat × Int)) (List (Nat × Int)) := { store := [(0, 500000000)], cache := [(0, 500000000)], height := 0 }
+  now : Nat := 0                  -- timestamp of the block being read (ic.GetTime)
+  btA : Recover.BlockTimes := []  -- replica A: blocked account ↦ block time of its blocking (Policy record, prefix 15)
   pending : List Tx := []         -- transactions of the block being read
   height : Nat := 0
 
@@ -409,10 +412,18 @@ def parseTx (s : DState) (ws : List String) : DState × Option Tx :=
     | "kv.destroy", [c] =>
       let (s, x) := acctOf s c
       mk s (.destroy x)
-    | "policy.recoverFund.neo", [a, t, pre] =>
+    | "policy.recoverFund.neo", [a, t] =>
       let (s, x) := acctOf s a
       let (s, y) := acctOf s t
-      mk s (.recoverNeo x y (pre == "pre=ok"))
+      -- the preconditions (almost-full committee witness of the cached committee, one year of block time since the
+      -- blocking) are computed by the model: Model/Ledger/Recover.lean
+      let pre := match s.a.read () with
+        | some st =>
+          let w0 := onPersist s.cfg { st := st, c := s.a.cache } (s.a.height + 1)
+          let bt := (Recover.txsTimes s.now w0 s.btA s.pending).2
+          Recover.recoverPre w0.c.neo.committee committee bt x s.now
+        | none => false
+      mk s (.recoverNeo x y pre)
     | "policy.setWhitelistFeeContract", c :: _ =>
       let (s, x) := acctOf s c
       mk s (.about x true)
@@ -474,7 +485,7 @@ def dstep (s : DState) (ws : List String) : DState × String :=
     let n : Comp.CNode (List (Nat × Int)) (List (Nat × Int)) := { store := st, cache := gsettings.init st, height := 0 }
     ({ s with setA := n, setB := n }, "ok")
   | ["genesis"] => (s, obsBoth s)
-  | ["block", h, _] => ({ s with pending := [], wlPending := [], setTxs := [], roleTxs := [], mgTxs := [], gpbTxs := [], mdTxs := [], height := h.toNat?.getD 0 }, "ok")
+  | "block" :: h :: _ :: ts => ({ s with now := (ts.head?.bind String.toNat?).getD 0, pending := [], wlPending := [], setTxs := [], roleTxs := [], mgTxs := [], gpbTxs := [], mdTxs := [], height := h.toNat?.getD 0 }, "ok")
   | "tx" :: rest =>
     match parseTx s rest with
     | (s, none) => (s, "bad-op")
@@ -557,6 +568,9 @@ def dstep (s : DState) (ws : List String) : DState × String :=
       | some st => Reward.rewardsOfBlock s.cfg st n.cache (n.height + 1) s.pending ((gpbLookup g.cache (n.height + 2)).getD 0) rs
       | none => rs
     let s := { s with rsA := rewards s.a gpbA' s.rsA, rsB := rewards s.b gpbB' s.rsB }
+    let s := match s.a.read () with
+      | some st => { s with btA := (Recover.txsTimes s.now (onPersist s.cfg { st := st, c := s.a.cache } (s.a.height + 1)) s.btA s.pending).2 }
+      | none => s
     let s := stepBoth s (.addBlock s.pending)
     let wops := s.wlPending.filterMap id
     let s := { s with a := step (nativeSys s.cfg) s.a .flush, pending := [], wlPending := [],
